@@ -27,7 +27,7 @@ struct Gen {
     }
     size_t str_len() {
         if (big && rng.chance(1, 12)) { static const size_t b[] = {127, 128, 129, 16383, 16384, 65534, 65535}; return b[rng.below(7)]; }
-        switch (rng.below(6)) { case 0: return 0; case 1: return 1; case 2: return rng.range(2, 12); case 3: return rng.range(2, 40); case 4: return rng.range(100, max_str); default: return rng.range(1, 20); }
+        switch (rng.below(6)) { case 0: return 0; case 1: return 1; case 2: return rng.range(2, 12); case 3: return rng.range(2, 40); case 4: return rng.range(std::min<size_t>(100, max_str), max_str); default: return rng.range(1, 20); }
     }
     std::string utf8() { return text(str_len()); }
     std::string binary() {
